@@ -48,3 +48,11 @@ package db
 
 //@ interface database/sql.Result.RowsAffected (self)
 //@   modifies nothing
+
+
+// ---- classification of a storage error (assumed, A5): the driver's extended result code of a primary-key conflict
+//@ func SQLiteErr
+//@   trusted
+//@   modifies nothing
+//@   ensures result0 != nil
+//@   ensures (result1 && result0.ExtendedCode == UniqueConstrain) == isUniqueErr(err)
